@@ -83,6 +83,7 @@ HCIcrle_init(accrec_t *access_rec)
     rle_info->last_byte   = (unsigned)RLE_NIL; /* start with no code in the last byte */
     rle_info->second_byte = (unsigned)RLE_NIL; /* start with no code here too */
     rle_info->offset      = 0;                 /* offset into the file */
+    rle_info->last_op     = 0;                 /* nothing encoded yet */
 
     return SUCCEED;
 } /* end HCIcrle_init() */
@@ -425,7 +426,8 @@ HCPcrle_seek(accrec_t *access_rec, int32 offset, int origin)
     rle_info = &(info->cinfo.coder_info.rle_info);
 
     if (offset < rle_info->offset) { /* need to seek from the beginning */
-        if ((access_rec->access & DFACC_WRITE) && rle_info->rle_state != RLE_INIT)
+        /* flush only encoder output: after reads the buffer holds decoder state */
+        if ((access_rec->access & DFACC_WRITE) && rle_info->last_op == DFACC_WRITE && rle_info->rle_state != RLE_INIT)
             if (HCIcrle_term(info) == FAIL)
                 HRETURN_ERROR(DFE_CTERM, FAIL);
         if (HCIcrle_init(access_rec) == FAIL)
@@ -511,6 +513,7 @@ HCPcrle_write(accrec_t *access_rec, int32 length, const void *data)
         (rle_info->offset != 0 && length <= (info->length - rle_info->offset)))
         HRETURN_ERROR(DFE_UNSUPPORTED, FAIL);
 
+    rle_info->last_op = DFACC_WRITE; /* the buffer now holds encoder output */
     if (HCIcrle_encode(info, length, data) == FAIL)
         HRETURN_ERROR(DFE_CENCODE, FAIL);
 
@@ -581,8 +584,8 @@ HCPcrle_endaccess(accrec_t *access_rec)
     info     = (compinfo_t *)access_rec->special_info;
     rle_info = &(info->cinfo.coder_info.rle_info);
 
-    /* flush out RLE buffer */
-    if ((access_rec->access & DFACC_WRITE) && rle_info->rle_state != RLE_INIT)
+    /* flush out RLE buffer (only encoder output: after reads it holds decoder state) */
+    if ((access_rec->access & DFACC_WRITE) && rle_info->last_op == DFACC_WRITE && rle_info->rle_state != RLE_INIT)
         if (HCIcrle_term(info) == FAIL)
             HRETURN_ERROR(DFE_CTERM, FAIL);
 
